@@ -1,4 +1,4 @@
-"""python3 -m analysis.mutreport : writes reports/mutation_sweep.md from the sweep result files under .cache (author-side)."""
+"""python3 -m analysis.mutreport : writes sweep/mutation_sweep.md from the sweep result files under .cache (author-side)."""
 import json, os, glob
 from collections import Counter
 VERIF = os.path.dirname(os.path.dirname(os.path.abspath(__file__)))
@@ -37,7 +37,7 @@ def main():
             out.append("| %s:%d | `%s` %s | %s | %s |" % (r["file"], r["line"], r["src"][:70].replace("|", "\\|"), ("-> `%s`" % r["new"]) if r["new"] else "deleted", r.get("tests", "-"), reason(r["file"], r["line"]) or "**untriaged**"))
         out.append("")
         allrows += rows
-    with open(os.path.join(VERIF, "reports", "mutation_sweep.md"), "w") as fh:
+    with open(os.path.join(VERIF, "sweep", "mutation_sweep.md"), "w") as fh:
         fh.write("\n".join(out) + "\n")
     print("written", len(allrows), "mutants")
 
